@@ -59,7 +59,7 @@ claim("C09",
       "Bounded symbolic model check of generation binding: after generation 1 ended (3 ways) and generation 2 was published, a stale synchronous writeFrame or the drain loop (every ready-set choice) never reaches the transport with generation 2's socket and queued frames are discarded; "
       "a W-bit send waiting on generation 1 is not completed by a same-system-bytes reply arriving on generation 2 and ends promptly with the connection-closed error; a pooled reply channel never carries a reply into a later generation. RaceVT moves the generation switch (3 ending orders, successor published, reply delivered on the successor) "
       "to an ARBITRARY instant of one send of each kind (one preemption before each of <=200 call instructions, bound checked): the frame goes out at most once, never on generation 2 while registered or queued on generation 1.",
-      "Trusted: executor + cooperative scheduler with one harness-placed preemption, z3. Outside: more than one preemption / several senders, real sockets, the secs1 line engine (C18), the lifecycle code that creates generations (C10/C11). The SECS-I transport's Write is covered by Secs1Binding (hand-off only to the engine of the generation that owns the caller's socket, generation switched at every call instruction of Write).")
+      "Trusted: executor + cooperative scheduler with one harness-placed preemption, z3. Outside: more than one preemption / several senders, real sockets, the secs1 line engine (C18), the lifecycle code that creates generations (C10/C11). The SECS-I transport's Write is covered by Secs1BindingVT (hand-off only to the engine of the generation that owns the caller's socket, generation switched at every call instruction of Write).")
 
 claim("C20",
       "Bounded symbolic model check of per-operation accounting: for each send outcome (reply, peer reject, T3, disconnect, cancel, refused B1, refused B2, write error, fire-and-forget, forward, control) the delta of every counter equals the documented table, the in-flight gauge returns to its entry value, is never negative, is 0 before the write and 1 while waiting; the async drain counts one send per written frame or one async error per failed write; DeliverOwnedFrame counts one receive per data frame. "
